@@ -172,6 +172,9 @@ class Orbital(object):
         dt = np.timedelta64(10, "m")
 
         t_old = np.datetime64(_get_tz_unaware_utctime(utc_time))
+        if np.datetime_data(t_old.dtype)[0] not in ("ms", "us", "ns", "ps", "fs", "as"):
+            # the bisection below halves integer ticks and needs sub-second resolution to converge
+            t_old = t_old.astype("datetime64[us]")
         t_new = t_old - dt
         pos0, vel0 = self.get_position(t_old, normalize=False)
         pos1, vel1 = self.get_position(t_new, normalize=False)
